@@ -13,7 +13,7 @@ use crate::c17::{BIN_OPS, UN_OPS, from_value};
 use std::collections::BTreeMap;
 use std::path::Path;
 use vbv::expr::Expr;
-use vbv::{BinClass, BinOp, Bit, Bv, UnOp};
+use vbv::{BinClass, Bit, Bv, UnOp};
 use vcore::{CaseCfg, Ctx, Draw, Outcome, hash_str, json};
 use veryl_analyzer::ir::{Component, Ir};
 use veryl_analyzer::value::Value;
@@ -36,7 +36,14 @@ pub enum G {
     Cond(Box<G>, Box<G>, Box<G>),
     Concat(Vec<G>),
     Repl(usize, Box<G>),
+    /// `$signed` / `$unsigned` — not generated (system functions are outside
+    /// the operator property; see the note in `run`), kept for hand-written use
     SignCast(bool, Box<G>),
+    /// reference to a named constant `K<i>` declared before the expression
+    /// (its value normalised to the declared type)
+    Ref(usize, Bv),
+    /// in-range part select `K<i>[hi:lo]`
+    Sel(usize, Bv, usize, usize),
 }
 
 impl G {
@@ -51,6 +58,8 @@ impl G {
             G::Concat(xs) => Expr::Concat(xs.iter().map(|x| x.to_expr()).collect()),
             G::Repl(n, x) => Expr::Repl(*n, Box::new(x.to_expr())),
             G::SignCast(s, x) => Expr::SignCast(*s, Box::new(x.to_expr())),
+            G::Ref(_, v) => Expr::Lit(v.clone()),
+            G::Sel(_, v, hi, lo) => Expr::Select(Box::new(Expr::Lit(v.clone())), *hi, *lo),
         }
     }
     pub fn to_veryl(&self) -> String {
@@ -64,11 +73,15 @@ impl G {
             G::Concat(xs) => format!("{{{}}}", xs.iter().map(|x| x.to_veryl()).collect::<Vec<_>>().join(", ")),
             G::Repl(n, x) => format!("{{{} repeat {n}}}", x.to_veryl()),
             G::SignCast(s, x) => format!("{}({})", if *s { "$signed" } else { "$unsigned" }, x.to_veryl()),
+            G::Ref(i, _) => format!("K{i}"),
+            G::Sel(i, _, hi, lo) => format!("K{i}[{hi}:{lo}]"),
         }
     }
     fn root_op(&self) -> String {
         match self {
             G::Lit(_) | G::Num(_) | G::Fill(_) => "literal".into(),
+            G::Ref(..) => "const-ref".into(),
+            G::Sel(..) => "part-select".into(),
             G::Un(i, _) => format!("unary{}", UN_OPS[*i].2),
             G::Bin(i, _, _) => BIN_OPS[*i].2.into(),
             G::Cond(..) => "?:".into(),
@@ -79,7 +92,7 @@ impl G {
     }
     fn size(&self) -> usize {
         match self {
-            G::Lit(_) | G::Num(_) | G::Fill(_) => 1,
+            G::Lit(_) | G::Num(_) | G::Fill(_) | G::Ref(..) | G::Sel(..) => 1,
             G::Un(_, x) | G::Repl(_, x) | G::SignCast(_, x) => 1 + x.size(),
             G::Bin(_, x, y) => 1 + x.size() + y.size(),
             G::Cond(c, a, b) => 1 + c.size() + a.size() + b.size(),
@@ -87,7 +100,28 @@ impl G {
         }
     }
     fn is_leaf(&self) -> bool {
-        matches!(self, G::Lit(_) | G::Num(_) | G::Fill(_))
+        matches!(self, G::Lit(_) | G::Num(_) | G::Fill(_) | G::Ref(..) | G::Sel(..))
+    }
+    fn refs(&self, out: &mut Vec<(usize, Bv)>) {
+        match self {
+            G::Ref(i, v) | G::Sel(i, v, _, _) => {
+                if !out.iter().any(|(k, _)| k == i) {
+                    out.push((*i, v.clone()));
+                }
+            }
+            G::Lit(_) | G::Num(_) | G::Fill(_) => {}
+            G::Un(_, x) | G::Repl(_, x) | G::SignCast(_, x) => x.refs(out),
+            G::Bin(_, x, y) => {
+                x.refs(out);
+                y.refs(out);
+            }
+            G::Cond(c, a, b) => {
+                c.refs(out);
+                a.refs(out);
+                b.refs(out);
+            }
+            G::Concat(xs) => xs.iter().for_each(|x| x.refs(out)),
+        }
     }
     /// all non-leaf sub-expressions, root first
     fn subexprs<'a>(&'a self, out: &mut Vec<&'a G>) {
@@ -113,7 +147,7 @@ impl G {
     fn has_fill(&self) -> bool {
         match self {
             G::Fill(_) => true,
-            G::Lit(_) | G::Num(_) => false,
+            G::Lit(_) | G::Num(_) | G::Ref(..) | G::Sel(..) => false,
             G::Un(_, x) | G::Repl(_, x) | G::SignCast(_, x) => x.has_fill(),
             G::Bin(_, x, y) => x.has_fill() || y.has_fill(),
             G::Cond(c, a, b) => c.has_fill() || a.has_fill() || b.has_fill(),
@@ -123,7 +157,7 @@ impl G {
     fn has_xz_literal(&self) -> bool {
         match self {
             G::Fill(b) => b.is_xz(),
-            G::Lit(v) => v.has_xz(),
+            G::Lit(v) | G::Ref(_, v) | G::Sel(_, v, _, _) => v.has_xz(),
             G::Num(_) => false,
             G::Un(_, x) | G::Repl(_, x) | G::SignCast(_, x) => x.has_xz_literal(),
             G::Bin(_, x, y) => x.has_xz_literal() || y.has_xz_literal(),
@@ -134,7 +168,7 @@ impl G {
     fn max_lit_width(&self) -> usize {
         match self {
             G::Fill(_) => 0,
-            G::Lit(v) => v.width(),
+            G::Lit(v) | G::Ref(_, v) | G::Sel(_, v, _, _) => v.width(),
             G::Num(_) => 32,
             G::Un(_, x) | G::Repl(_, x) | G::SignCast(_, x) => x.max_lit_width(),
             G::Bin(_, x, y) => x.max_lit_width().max(y.max_lit_width()),
@@ -154,6 +188,8 @@ struct Gen {
     /// chance (per mille) that a literal carries x/z bits
     xz_per_mille: u32,
     wide: bool,
+    /// values of the named constants K0..K2
+    pool: Vec<Bv>,
 }
 
 impl Gen {
@@ -190,6 +226,19 @@ impl Gen {
         G::Lit(Bv::new(bits, signed))
     }
     fn leaf(&self, d: &mut Draw) -> G {
+        if d.chance(1, 6) {
+            // a named constant (K0..K2), possibly with a declared signedness
+            // different from its initialiser's, possibly part-selected
+            let i = d.below_usize(self.pool.len());
+            let v = self.pool[i].clone();
+            let w = v.width();
+            if d.chance(1, 3) {
+                let lo = d.usize_in(0, w - 1);
+                let hi = d.usize_in(lo, w - 1);
+                return G::Sel(i, v, hi, lo);
+            }
+            return G::Ref(i, v);
+        }
         if d.chance(1, 12) {
             return G::Num(*d.pick(&[0u32, 1, 2, 3, 7, 100, 255, 65535, 0x7fff_ffff]));
         }
@@ -211,6 +260,17 @@ impl Gen {
             G::Un(*d.pick(&ops), Box::new(self.expr(d, depth - 1, false)))
         }
     }
+    /// the generated expression: an operator at the root whenever the choice
+    /// sequence allows
+    fn top(&self, d: &mut Draw, depth: usize) -> G {
+        for _ in 0..4 {
+            let g = self.expr(d, depth, false);
+            if !g.is_leaf() {
+                return g;
+            }
+        }
+        self.expr(d, depth, false)
+    }
     /// `allow_fill`: the position is context-determined with a sized sibling
     fn expr(&self, d: &mut Draw, depth: usize, allow_fill: bool) -> G {
         if allow_fill && d.chance(1, 15) {
@@ -219,7 +279,7 @@ impl Gen {
         if depth == 0 || d.chance(1, 4) {
             return self.leaf(d);
         }
-        match d.weighted(&[12, 4, 2, 2, 1, 1]) {
+        match d.weighted(&[12, 4, 2, 2, 1]) {
             0 => {
                 let i = d.below_usize(BIN_OPS.len());
                 let op = BIN_OPS[i].0;
@@ -273,8 +333,7 @@ impl Gen {
                 let n = d.usize_in(1, 3);
                 G::Concat((0..n).map(|_| self.expr(d, depth - 1, false)).collect())
             }
-            4 => G::Repl(d.usize_in(1, 3), Box::new(self.expr(d, depth - 1, false))),
-            _ => G::SignCast(d.bool(), Box::new(self.expr(d, depth - 1, false))),
+            _ => G::Repl(d.usize_in(1, 3), Box::new(self.expr(d, depth - 1, false))),
         }
     }
 }
@@ -357,10 +416,136 @@ fn one_bit_result(g: &G) -> bool {
     }
 }
 
+/// Input classes of listed findings (`c17::known`) occurring anywhere in
+/// `e` when it is assigned to an `lhs_width`-bit constant.  The walk mirrors
+/// the context propagation of `Expr::eval_in`.
+pub fn triggers(e: &Expr, lhs_width: usize) -> Vec<&'static str> {
+    use crate::c17::known;
+    use vbv::{BinOp, Truth};
+    /// an operator result whose value flag may differ from the LRM type
+    fn flag_suspect(e: &Expr) -> bool {
+        fn any_signed_leaf(e: &Expr) -> bool {
+            match e {
+                Expr::Lit(v) => v.signed(),
+                Expr::Fill(_) => false,
+                Expr::Un(_, x) | Expr::Repl(_, x) | Expr::SignCast(_, x) | Expr::Select(x, _, _) | Expr::SizeCast(_, x) => any_signed_leaf(x),
+                Expr::Bin(_, x, y) => any_signed_leaf(x) || any_signed_leaf(y),
+                Expr::Cond(c, a, b) => any_signed_leaf(c) || any_signed_leaf(a) || any_signed_leaf(b),
+                Expr::Concat(xs) => xs.iter().any(any_signed_leaf),
+            }
+        }
+        let producer = match e {
+            Expr::Un(op, _) => op.is_context(),
+            Expr::Bin(op, _, _) => matches!(
+                op,
+                BinOp::And | BinOp::Or | BinOp::Xor | BinOp::Xnor | BinOp::Shl | BinOp::Shr | BinOp::AShl | BinOp::AShr | BinOp::Pow
+            ),
+            Expr::Cond(..) => true,
+            _ => false,
+        };
+        producer && any_signed_leaf(e)
+    }
+    fn walk(e: &Expr, width: usize, signed: bool, out: &mut Vec<&'static str>) {
+        let mut add = |k: &'static str| {
+            if !out.contains(&k) {
+                out.push(k)
+            }
+        };
+        match e {
+            Expr::Lit(_) | Expr::Fill(_) => {}
+            Expr::Un(op, x) => {
+                if op.is_context() {
+                    walk(x, width, signed, out)
+                } else {
+                    walk(x, x.width(), x.signed(), out)
+                }
+            }
+            Expr::Bin(op, x, y) => match op.class() {
+                BinClass::Arith => {
+                    walk(x, width, signed, out);
+                    walk(y, width, signed, out);
+                }
+                BinClass::ShiftPow => {
+                    if *op == BinOp::Pow {
+                        let ev = y.eval();
+                        if y.signed() && ev.has_xz() {
+                            add(known::POW_XZ_EXPONENT);
+                        }
+                        if !signed && x.signed() && ev.to_bigint().is_some_and(|v| v < 0.into()) {
+                            add(known::POW_SIGNED_BASE_UNSIGNED_CTX);
+                        }
+                        if ev.to_bigint().is_some_and(|v| v.bits() > 64 && v > 0.into()) {
+                            add(known::POW_HUGE_EXPONENT);
+                        }
+                        if flag_suspect(y) {
+                            add(known::RESULT_FLAG);
+                        }
+                    }
+                    walk(x, width, signed, out);
+                    walk(y, y.width(), y.signed(), out);
+                }
+                BinClass::Compare => {
+                    if matches!(op, BinOp::Eq | BinOp::Ne) && e.eval().bit(0) == Bit::X {
+                        add(known::EQ_AMBIGUOUS);
+                    }
+                    if matches!(op, BinOp::Eq | BinOp::Ne | BinOp::WildEq | BinOp::WildNe) && (flag_suspect(x) || flag_suspect(y)) {
+                        add(known::RESULT_FLAG);
+                    }
+                    if matches!(op, BinOp::Lt | BinOp::Le | BinOp::Gt | BinOp::Ge) && x.signed() && y.signed() {
+                        add(known::RELATIONAL_SIGNED);
+                    }
+                    let w = x.width().max(y.width());
+                    let s = x.signed() && y.signed();
+                    walk(x, w, s, out);
+                    walk(y, w, s, out);
+                }
+                BinClass::Logical => {
+                    if *op == BinOp::LogAnd {
+                        let (a, b) = (x.eval(), y.eval());
+                        if (a.truth() == Truth::False || b.truth() == Truth::False) && (a.has_xz() || b.has_xz()) {
+                            add(known::LOGAND_FALSE_UNKNOWN);
+                        }
+                    }
+                    walk(x, x.width(), x.signed(), out);
+                    walk(y, y.width(), y.signed(), out);
+                }
+            },
+            Expr::Cond(c, a, b) => {
+                if c.eval().truth() == Truth::Unknown {
+                    add(known::COND_UNKNOWN);
+                }
+                // the arms are extended by their own value flags, not by the
+                // propagated context type
+                if flag_suspect(a) || flag_suspect(b) || (!signed && a.signed() && b.signed()) {
+                    add(known::RESULT_FLAG);
+                }
+                walk(c, c.width(), c.signed(), out);
+                walk(a, width, signed, out);
+                walk(b, width, signed, out);
+            }
+            Expr::Concat(xs) => xs.iter().for_each(|x| walk(x, x.width(), x.signed(), out)),
+            Expr::Select(x, _, _) => {
+                if x.signed() {
+                    add(known::SELECT_SIGNED);
+                }
+                if e.eval().has_xz() {
+                    add(known::SELECT_XZ);
+                }
+                walk(x, x.width(), x.signed(), out)
+            }
+            Expr::Repl(_, x) | Expr::SignCast(_, x) => walk(x, x.width(), x.signed(), out),
+            Expr::SizeCast(k, x) => walk(x, x.width().max(*k), x.signed(), out),
+        }
+    }
+    let mut out = vec![];
+    walk(e, e.width().max(lhs_width), e.signed(), &mut out);
+    out
+}
+
 /// does some strict sub-expression of `g` appear in `set`?
 fn strict_sub_in(g: &G, set: &[*const G]) -> bool {
     let kids: Vec<&G> = match g {
-        G::Lit(_) | G::Num(_) | G::Fill(_) => vec![],
+        G::Lit(_) | G::Num(_) | G::Fill(_) | G::Ref(..) | G::Sel(..) => vec![],
         G::Un(_, x) | G::Repl(_, x) | G::SignCast(_, x) => vec![x],
         G::Bin(_, x, y) => vec![x, y],
         G::Cond(c, a, b) => vec![c, a, b],
@@ -383,6 +568,21 @@ pub fn check_source(ctx: &Ctx, g: &G, top_width: usize, top_signed: bool) -> Out
         decls.push(Decl { name: format!("S{k}"), width: w, signed_type: false, g: s });
     }
     let mut src = String::from("module C17Lang {\n");
+    let mut refs = vec![];
+    g.refs(&mut refs);
+    refs.sort_by_key(|r| r.0);
+    for (i, v) in &refs {
+        // initialiser: a literal of the declared width and signedness (an
+        // initialiser whose signedness differs from the declared type is the
+        // listed finding `const-ref-signedness-from-initializer`: excluded
+        // by construction, its reproducer is replayed on every run)
+        src.push_str(&format!(
+            "    const K{i}: {}logic<{}> = {};\n",
+            if v.signed() { "signed " } else { "" },
+            v.width(),
+            v
+        ));
+    }
     for dcl in &decls {
         src.push_str(&format!(
             "    const {}: {}logic<{}> = {};\n",
@@ -411,6 +611,13 @@ pub fn check_source(ctx: &Ctx, g: &G, top_width: usize, top_signed: bool) -> Out
     let mut checked = 0;
     for dcl in &decls {
         let e = dcl.g.to_expr();
+        let trig = triggers(&e, dcl.width);
+        for t in &trig {
+            let c = format!("known_class_present:{t}");
+            if !classes.contains(&c) {
+                classes.push(c);
+            }
+        }
         let (alts, notes) = e.eval_assign_all(dcl.width);
         for l in &notes.latitude {
             let c = format!("latitude:{l:?}");
@@ -453,7 +660,11 @@ pub fn check_source(ctx: &Ctx, g: &G, top_width: usize, top_signed: bool) -> Out
                     failures.push((
                         dcl.g,
                         dcl.name.clone(),
-                        format!("lang:{}:{ke}->{ka}", dcl.g.root_op()),
+                        match trig.first() {
+                            // the expression contains an input class of a listed finding
+                            Some(t) => t.to_string(),
+                            None => format!("lang:{}:{ke}->{ka}", dcl.g.root_op()),
+                        },
                         format!(
                             "{text}\n  IEEE 1800 value: {}{}\n  veryl evaluates: {}\n  (SystemVerilog: {})",
                             exp.with_signed(false),
@@ -509,9 +720,15 @@ pub fn check_source(ctx: &Ctx, g: &G, top_width: usize, top_signed: bool) -> Out
 }
 
 fn lang_case(ctx: &Ctx, d: &mut Draw) -> Outcome {
-    let generator = Gen { xz_per_mille: *d.pick(&[0u32, 150, 400]), wide: d.chance(1, 3) };
+    let mut generator = Gen { xz_per_mille: *d.pick(&[0u32, 150, 400]), wide: d.chance(1, 3), pool: vec![] };
+    for _ in 0..3 {
+        let w = generator.width(d);
+        let G::Lit(v) = generator.lit(d, w) else { unreachable!() };
+        let s = d.chance(2, 5);
+        generator.pool.push(v.with_signed(s));
+    }
     let depth = d.usize_in(1, 3);
-    let g = generator.expr(d, depth, false);
+    let g = generator.top(d, depth);
     if g.is_leaf() && matches!(g, G::Fill(_)) {
         return Outcome::skip("bare fill literal");
     }
@@ -536,7 +753,7 @@ pub fn run(ctx: &Ctx) {
         let expect = p.get("expect").cloned().unwrap_or(json!({}));
         std::thread::spawn(move || replay_source(&src, &expect)).join().unwrap_or_else(|_| Outcome::skip("panicked"))
     });
-    let n = ctx.scale(4000, 150_000);
+    let n = ctx.scale(3000, 150_000);
     ctx.run("lang", CaseCfg::cases(n).choices(600), |d| lang_case(ctx, d));
 }
 
